@@ -66,6 +66,7 @@ type Config struct {
 	Trace      bool          // keep the full log
 }
 
+//go:norace
 func DefaultConfig() Config {
 	return Config{MaxSteps: 400000, Horizon: 10 * time.Minute, SwitchP: 0.2, PreemptP: 0.05, MaxBudget: 40,
 		TimeRaceP: 0.02, RaceDelta: 5 * time.Millisecond, MaxIdle: time.Hour, TraceLimit: 400, MaxReal: 90 * time.Second}
@@ -128,6 +129,7 @@ type Sim struct {
 	Probes    map[string]int
 	selSeed   uint64
 	selSeed0  uint64
+	endSync   uint64 // race builds: what every task releases into when it parks, acquired by the test goroutine after the case
 	knobSeed  uint64
 	T         *testing.T
 
@@ -145,15 +147,21 @@ var active atomic.Pointer[Sim]
 var beat atomic.Int64 // heartbeat for the real-time watchdog
 
 // Active returns the running simulation, or nil.
+//
+//go:norace
 func Active() *Sim { return active.Load() }
 
 // Heartbeat returns a counter that moves whenever the scheduler makes progress.
+//
+//go:norace
 func Heartbeat() int64 { return beat.Load() }
 
 type exitSentinel struct{ code int }
 
 // Exit is what os.Exit / log.Fatal are redirected to: it unwinds the calling task
 // and records that the relay tried to terminate the process.
+//
+//go:norace
 func Exit(code int) {
 	if Active() == nil {
 		os.Exit(code)
@@ -162,28 +170,46 @@ func Exit(code int) {
 }
 
 // Now returns simulated time elapsed since the start of the run.
+//
+//go:norace
 func (s *Sim) Now() time.Duration { return time.Since(s.start) }
 
+//go:norace
 func (s *Sim) lookup(g uint64) *Task {
-	s.mu.Lock()
+	s.lock()
 	t := s.byGoid[g]
-	s.mu.Unlock()
+	s.unlock()
 	return t
 }
 
 // Me returns the calling task (nil for unsupervised goroutines).
+//
+//go:norace
 func (s *Sim) Me() *Task { return s.lookup(runtime.VerifGoid()) }
 
+// lock/unlock bracket every access to the simulator's own state; in a race build the bracket is invisible to the detector
+//
+//go:norace
+func (s *Sim) lock() { SyncOff(); s.mu.Lock() }
+
+//go:norace
+func (s *Sim) unlock() { s.mu.Unlock(); SyncOn() }
+
+//go:norace
 func (s *Sim) kickSched() {
+	SyncOff()
 	select {
 	case s.kick <- struct{}{}:
 	default:
 	}
+	SyncOn()
 }
 
+//go:norace
 func (t *Task) park(where string) {
 	s := t.sim
-	s.mu.Lock()
+	taskRelease(s)
+	s.lock()
 	t.state = stParked
 	t.where = where
 	t.parkSeq = 0 // assigned by the scheduler, in task-id order, once everybody is quiescent
@@ -192,13 +218,17 @@ func (t *Task) park(where string) {
 		s.curGoid.Store(0)
 	}
 	s.St.Parks++
-	s.mu.Unlock()
+	s.unlock()
 	s.kickSched()
+	SyncOff()
 	<-t.wake
+	SyncOn()
 	runtime.VerifSetSelectSeed(t.selSeed) // the poll order of this stretch, chosen by the scheduler when it released the task
 }
 
 // Y is inserted before every statement of the system under test.
+//
+//go:norace
 func Y(site string) {
 	s := active.Load()
 	if s == nil {
@@ -233,15 +263,21 @@ func Y(site string) {
 }
 
 // Yield is Y for hand-written harness code: call it after any real blocking operation.
+//
+//go:norace
 func Yield(site string) { Y(site) }
 
 // Sleep sleeps on the simulated clock.
+//
+//go:norace
 func Sleep(d time.Duration) {
 	time.Sleep(d)
 	Y("sleep")
 }
 
 // Go replaces the go statement.
+//
+//go:norace
 func Go(site string, f func()) {
 	s := active.Load()
 	if s == nil {
@@ -260,23 +296,26 @@ func Go(site string, f func()) {
 }
 
 // Spawn starts a harness task in the given domain and group.
+//
+//go:norace
 func (s *Sim) Spawn(name, domain, group string, f func()) *Task {
 	return s.spawn(name, domain, group, f)
 }
 
+//go:norace
 func (s *Sim) spawn(name, domain, group string, f func()) *Task {
-	s.mu.Lock()
+	s.lock()
 	t := &Task{ID: len(s.tasks), Name: name, Domain: domain, Group: group, wake: make(chan struct{}), state: stBlocked, sim: s}
 	t.dead = s.deadGroups[group]
 	s.tasks = append(s.tasks, t)
 	s.St.Tasks++
-	s.mu.Unlock()
+	s.unlock()
 	go func() {
 		g := runtime.VerifGoid()
-		s.mu.Lock()
+		s.lock()
 		t.goid = g
 		s.byGoid[g] = t
-		s.mu.Unlock()
+		s.unlock()
 		// the PRNG states the runtime draws from on behalf of this goroutine (select poll order, map seeds, unseeded math/rand)
 		// belong to the task, so neither a task running in parallel up to its next yield point nor a goroutine the simulator
 		// does not schedule can perturb them
@@ -284,9 +323,10 @@ func (s *Sim) spawn(name, domain, group string, f func()) *Task {
 		runtime.VerifSetSelectSeed(Mix(s.selSeed0, uint64(t.ID)+1) | 1)
 		defer func() {
 			r := recover()
+			taskRelease(s)
 			runtime.VerifSetMapSeed(0) // the g may be reused by a goroutine that is not a task
 			runtime.VerifSetSelectSeed(0)
-			s.mu.Lock()
+			s.lock()
 			if r != nil {
 				pi := PanicInfo{Task: t.Name, Group: t.Group, At: time.Since(s.start)}
 				if e, ok := r.(exitSentinel); ok {
@@ -306,7 +346,7 @@ func (s *Sim) spawn(name, domain, group string, f func()) *Task {
 				s.current = nil
 				s.curGoid.Store(0)
 			}
-			s.mu.Unlock()
+			s.unlock()
 			s.kickSched()
 		}()
 		t.park("start")
@@ -315,15 +355,28 @@ func (s *Sim) spawn(name, domain, group string, f func()) *Task {
 	return t
 }
 
-// Cond is a broadcast condition for hand-written simulated devices and for mutexes.
+// Cond is a broadcast condition for hand-written harness code, simulated devices and the mutex emulation.
+// A harness Cond (NewCond) is real synchronisation as far as the race detector is concerned: "the table was built before the
+// clients started" is an ordering the program under test would have too.  A device Cond (NewDevCond: socket buffers, the mutex
+// emulation) is not: a device must not order the tasks that use it.
 type Cond struct {
-	mu sync.Mutex
-	ch chan struct{}
+	mu  sync.Mutex
+	ch  chan struct{}
+	dev bool
 }
 
+//go:norace
 func NewCond() *Cond { return &Cond{ch: make(chan struct{})} }
 
+//go:norace
+func NewDevCond() *Cond { return &Cond{ch: make(chan struct{}), dev: true} }
+
+//go:norace
 func (c *Cond) get() chan struct{} {
+	if c.dev {
+		SyncOff()
+		defer SyncOn()
+	}
 	c.mu.Lock()
 	ch := c.ch
 	c.mu.Unlock()
@@ -331,11 +384,19 @@ func (c *Cond) get() chan struct{} {
 }
 
 // Broadcast wakes every waiter; they become scheduling candidates.
+//
+//go:norace
 func (c *Cond) Broadcast() {
+	if c.dev {
+		SyncOff()
+	}
 	c.mu.Lock()
 	close(c.ch)
 	c.ch = make(chan struct{})
 	c.mu.Unlock()
+	if c.dev {
+		SyncOn()
+	}
 	if s := active.Load(); s != nil {
 		s.St.Broadcasts++
 	}
@@ -343,15 +404,20 @@ func (c *Cond) Broadcast() {
 
 // Wait blocks the calling task until cond() holds (true) or the deadline on the
 // simulated clock passes (false).  A zero deadline means none.
+//
+//go:norace
 func (c *Cond) Wait(cond func() bool, deadline time.Time) bool {
 	for {
+		ch := c.get() // before looking at the condition: whatever a broadcaster did before its Broadcast is visible (and ordered)
 		if cond() {
 			return true
 		}
 		if !deadline.IsZero() && !time.Now().Before(deadline) {
 			return false
 		}
-		ch := c.get()
+		if c.dev {
+			SyncOff()
+		}
 		if deadline.IsZero() {
 			<-ch
 		} else {
@@ -362,26 +428,35 @@ func (c *Cond) Wait(cond func() bool, deadline time.Time) bool {
 			}
 			tm.Stop()
 		}
+		if c.dev {
+			SyncOn()
+		}
 		Y("cond")
 	}
 }
 
 // Lock replaces x.Lock(): tasks never park inside the Go runtime on a mutex
 // (a sync.Mutex wait is not "durably blocked" for synctest).
+//
+//go:norace
 func Lock(lock func(), try func() bool) {
 	s := active.Load()
 	if s == nil {
 		lock()
 		return
 	}
-	for !try() {
+	for !try() { // the system's own TryLock and Unlock stay visible to the race detector: they are its synchronisation
 		ch := s.lockc.get()
+		SyncOff()
 		<-ch
+		SyncOn()
 		Y("lockwait")
 	}
 }
 
 // Unlock replaces x.Unlock().
+//
+//go:norace
 func Unlock(unlock func()) {
 	unlock()
 	if s := active.Load(); s != nil {
@@ -390,32 +465,41 @@ func Unlock(unlock func()) {
 }
 
 // Freeze makes the tasks of a domain unschedulable until Thaw.
-func (s *Sim) Freeze(domain string) { s.mu.Lock(); s.frozen[domain] = true; s.mu.Unlock() }
-func (s *Sim) Thaw(domain string)   { s.mu.Lock(); delete(s.frozen, domain); s.mu.Unlock() }
+//
+//go:norace
+func (s *Sim) Freeze(domain string) { s.lock(); s.frozen[domain] = true; s.unlock() }
+
+//go:norace
+func (s *Sim) Thaw(domain string) { s.lock(); delete(s.frozen, domain); s.unlock() }
 
 // GuardBegin starts a boundedness window (C06, C17): the given domain is frozen and the
 // clock may not advance; if nothing else is runnable before GuardEnd, or more than
 // maxSteps scheduler steps pass, the operation in progress depends on that domain or on
 // time and the run ends with GuardTrip set.
+//
+//go:norace
 func (s *Sim) GuardBegin(domain string, maxSteps int) {
-	s.mu.Lock()
+	s.lock()
 	s.guardOn, s.guardDom, s.guardStart, s.guardMax = true, domain, s.St.Steps, maxSteps
 	s.frozen[domain] = true
 	s.Guards++
-	s.mu.Unlock()
+	s.unlock()
 }
 
+//go:norace
 func (s *Sim) GuardEnd() {
-	s.mu.Lock()
+	s.lock()
 	s.guardOn = false
 	delete(s.frozen, s.guardDom)
-	s.mu.Unlock()
+	s.unlock()
 }
 
 // Kill marks every task of a group dead: a crashed incarnation.  Dead tasks are never scheduled again.
+//
+//go:norace
 func (s *Sim) Kill(group string) int {
 	n := 0
-	s.mu.Lock()
+	s.lock()
 	s.deadGroups[group] = true // tasks started for this incarnation from now on are born dead
 	for _, t := range s.tasks {
 		if t.Group == group && t.state != stDone && !t.dead {
@@ -423,11 +507,13 @@ func (s *Sim) Kill(group string) int {
 			n++
 		}
 	}
-	s.mu.Unlock()
+	s.unlock()
 	return n
 }
 
 // Die makes the calling task part of a crashed incarnation: it never runs again.
+//
+//go:norace
 func Die() {
 	s := active.Load()
 	if s == nil {
@@ -437,56 +523,70 @@ func Die() {
 	if t == nil {
 		return
 	}
-	s.mu.Lock()
+	s.lock()
 	t.dead = true
-	s.mu.Unlock()
+	s.unlock()
 	t.park("dead")
 }
 
 // Stop ends the run after the current step.
+//
+//go:norace
 func (s *Sim) Stop(reason string) {
-	s.mu.Lock()
+	s.lock()
 	if !s.stop {
 		s.stop = true
 		s.reason = reason
 	}
-	s.mu.Unlock()
+	s.unlock()
 }
 
 // Fail records the first violation of the run.
+//
+//go:norace
 func (s *Sim) Fail(class, format string, a ...interface{}) {
-	s.mu.Lock()
+	s.lock()
 	if s.Viol == nil {
 		s.Viol = &Violation{Class: class, Msg: fmt.Sprintf(format, a...), At: time.Since(s.start), Step: s.St.Steps}
 	}
-	s.mu.Unlock()
+	s.unlock()
 	s.Logf("VIOLATION %s: %s", class, fmt.Sprintf(format, a...))
 }
 
 // Failed reports whether a violation has been recorded.
-func (s *Sim) Failed() bool { s.mu.Lock(); defer s.mu.Unlock(); return s.Viol != nil }
+//
+//go:norace
+func (s *Sim) Failed() bool { s.lock(); defer s.unlock(); return s.Viol != nil }
 
 // Infra records harness trouble (exit 2, never a VIOLATION).
+//
+//go:norace
 func (s *Sim) Infra(format string, a ...interface{}) {
-	s.mu.Lock()
+	s.lock()
 	if s.InfraErr == "" {
 		s.InfraErr = fmt.Sprintf(format, a...)
 	}
 	s.stop = true
-	s.mu.Unlock()
+	s.unlock()
 }
 
 // Probe counts that a rare condition of interest was reached.
-func (s *Sim) Probe(name string) { s.mu.Lock(); s.Probes[name]++; s.mu.Unlock() }
+//
+//go:norace
+func (s *Sim) Probe(name string) { s.lock(); s.Probes[name]++; s.unlock() }
+
+//go:norace
 func (s *Sim) ProbeN(name string, n int) {
-	s.mu.Lock()
+	s.lock()
 	s.Probes[name] += n
-	s.mu.Unlock()
+	s.unlock()
 }
 
 // Knob is what simgen puts in place of a large literal queue capacity: the shipped value in half of the runs, 1..4 in the others
 // (decided by the run's seed and the site, so it is the same on replay and while a schedule is minimised).  Outside a
 // simulation it is the shipped value.
+//
+//go:norace
 func Knob(site string, shipped int) int {
 	s := active.Load()
 	if s == nil {
@@ -506,6 +606,8 @@ func Knob(site string, shipped int) int {
 }
 
 // Probe is the package-level form, usable from simulated devices.
+//
+//go:norace
 func Probe(name string) {
 	if s := active.Load(); s != nil {
 		s.Probe(name)
@@ -513,9 +615,11 @@ func Probe(name string) {
 }
 
 // Logf appends to the event log (never draws, never reads a real clock).
+//
+//go:norace
 func (s *Sim) Logf(format string, a ...interface{}) {
 	msg := fmt.Sprintf(format, a...)
-	s.mu.Lock()
+	s.lock()
 	s.logN++
 	line := fmt.Sprintf("%12d #%d %s", int64(time.Since(s.start)), s.logN, msg)
 	h := fnv.New64a()
@@ -529,10 +633,12 @@ func (s *Sim) Logf(format string, a ...interface{}) {
 		}
 		s.logRing = append(s.logRing, line)
 	}
-	s.mu.Unlock()
+	s.unlock()
 }
 
 // Logf is the package-level form.
+//
+//go:norace
 func Logf(format string, a ...interface{}) {
 	if s := active.Load(); s != nil {
 		s.Logf(format, a...)
@@ -540,9 +646,11 @@ func Logf(format string, a ...interface{}) {
 }
 
 // Log returns the retained log lines.
+//
+//go:norace
 func (s *Sim) Log() []string {
-	s.mu.Lock()
-	defer s.mu.Unlock()
+	s.lock()
+	defer s.unlock()
 	if s.Cfg.Trace {
 		return append([]string(nil), s.logFull...)
 	}
@@ -550,16 +658,23 @@ func (s *Sim) Log() []string {
 }
 
 // Fingerprint identifies the execution: event log and schedule decisions.
+//
+//go:norace
 func (s *Sim) Fingerprint() string {
 	return fmt.Sprintf("%016x-%016x", s.eventHash, s.schedHash)
 }
 
 // SchedFingerprint identifies the interleaving only.
+//
+//go:norace
 func (s *Sim) SchedFingerprint() string { return fmt.Sprintf("%016x", s.schedHash) }
 
 // Reason tells why the scheduler loop ended.
+//
+//go:norace
 func (s *Sim) Reason() string { return s.reason }
 
+//go:norace
 func (s *Sim) runnable() []*Task {
 	var r, q []*Task
 	for _, t := range s.tasks {
@@ -583,6 +698,8 @@ func (s *Sim) runnable() []*Task {
 
 // Quiesce parks the calling task until no other task is runnable at the current
 // simulated instant (time does not advance).
+//
+//go:norace
 func Quiesce() {
 	s := active.Load()
 	if s == nil {
@@ -592,16 +709,18 @@ func Quiesce() {
 	if t == nil {
 		return
 	}
-	s.mu.Lock()
+	s.lock()
 	t.quiet = true
-	s.mu.Unlock()
+	s.unlock()
 	t.park("quiesce")
 }
 
 // Describe lists the live tasks and where they are (for reports).
+//
+//go:norace
 func (s *Sim) Describe() string {
-	s.mu.Lock()
-	defer s.mu.Unlock()
+	s.lock()
+	defer s.unlock()
 	var b strings.Builder
 	names := []string{"parked", "running", "blocked", "done"}
 	for _, t := range s.tasks {
@@ -618,9 +737,11 @@ func (s *Sim) Describe() string {
 }
 
 // RelayIdle reports whether no live task of the given domain is runnable (used by boundedness oracles).
+//
+//go:norace
 func (s *Sim) DomainRunnable(domain string) bool {
-	s.mu.Lock()
-	defer s.mu.Unlock()
+	s.lock()
+	defer s.unlock()
 	for _, t := range s.tasks {
 		if t.Domain == domain && !t.dead && (t.state == stParked || t.state == stRunning) {
 			return true
@@ -629,6 +750,7 @@ func (s *Sim) DomainRunnable(domain string) bool {
 	return false
 }
 
+//go:norace
 func (s *Sim) loop() {
 	idleNoProgress := 0
 	iter := 0
@@ -638,15 +760,15 @@ func (s *Sim) loop() {
 		beat.Add(1)
 		iter++
 		if iter&1023 == 0 && s.Cfg.MaxReal > 0 && nowReal()-realStart > int64(s.Cfg.MaxReal) {
-			s.mu.Lock()
+			s.lock()
 			if s.InfraErr == "" {
 				s.InfraErr = fmt.Sprintf("run exceeded its real-time budget of %v (steps=%d sim=%v)", s.Cfg.MaxReal, s.St.Steps, time.Since(s.start))
 			}
-			s.mu.Unlock()
+			s.unlock()
 			s.reason = "real-time budget"
 			return
 		}
-		s.mu.Lock()
+		s.lock()
 		if s.current != nil {
 			// the released task is durably blocked inside a real operation
 			s.current.state = stBlocked
@@ -668,7 +790,7 @@ func (s *Sim) loop() {
 		}
 		stop := s.stop
 		s.St.SimTime = time.Since(s.start)
-		s.mu.Unlock()
+		s.unlock()
 		if stop {
 			return
 		}
@@ -772,12 +894,12 @@ func (s *Sim) loop() {
 		t.selSeed = s.selSeed | 1
 		s.schedHash = (s.schedHash ^ uint64(t.ID+1)) * 1099511628211
 		s.schedHash = (s.schedHash ^ uint64(len(t.where))) * 1099511628211
-		s.mu.Lock()
+		s.lock()
 		t.state = stRunning
 		s.current = t
 		s.last = t
 		s.curGoid.Store(t.goid)
-		s.mu.Unlock()
+		s.unlock()
 		select {
 		case <-s.kick:
 		default:
@@ -795,6 +917,8 @@ type Result struct {
 }
 
 // RunBubble executes driver as the first task of a fresh simulation inside a synctest bubble.
+//
+//go:norace
 func RunBubble(t *testing.T, cfg Config, sched *Choices, mapSeed uint64, driver func(s *Sim)) (res Result) {
 	var s *Sim
 	t0 := time.Now()
@@ -810,12 +934,14 @@ func RunBubble(t *testing.T, cfg Config, sched *Choices, mapSeed uint64, driver 
 			}
 		}()
 		synctest.Test(t, func(t *testing.T) {
-			s = &Sim{byGoid: map[uint64]*Task{}, kick: make(chan struct{}, 1), lockc: NewCond(), Cfg: cfg, Sched: sched,
+			s = &Sim{byGoid: map[uint64]*Task{}, kick: make(chan struct{}, 1), lockc: NewDevCond(), Cfg: cfg, Sched: sched,
 				frozen: map[string]bool{}, deadGroups: map[string]bool{}, Probes: map[string]int{}, start: time.Now(), selSeed: mapSeed ^ 0x5851F42D4C957F2D, selSeed0: mapSeed ^ 0x5851F42D4C957F2D, knobSeed: mapSeed, T: t}
 			runtime.VerifSetMapSeed(mapSeed | 1)
 			runtime.VerifSetSelectSeed(s.selSeed | 1)
 			active.Store(s)
-			s.spawn("driver", "driver", "harness", func() { driver(s) })
+			s.spawn("driver", "driver", "harness", func() { driver(s) }) // a real go statement: what the test did before is ordered
+			SyncOff()                                                    // the scheduler goroutine: nothing it does orders the tasks as far as the race detector is concerned
+			defer SyncOn()
 			s.loop()
 			s.St.Yields = int(s.ycount)
 			active.Store(nil)
@@ -826,6 +952,9 @@ func RunBubble(t *testing.T, cfg Config, sched *Choices, mapSeed uint64, driver 
 	active.Store(nil)
 	runtime.VerifSetMapSeed(0)
 	runtime.VerifSetSelectSeed(0)
+	if s != nil {
+		caseAcquire(s)
+	}
 	res.Sim = s
 	res.RealNanos = int64(time.Since(t0))
 	return res
